@@ -197,6 +197,9 @@ RULE = ("one Kani harness per kind of the serde data model (12 integer widths ov
 
 
 def check(run, only=None):
+    from .. import e3
+    e3.run_parts(run, ["serializer"], only=only)
+    run.notes.append("E3 (MIR symbolic execution): the seven container collectors of the serializer driven through serde's protocol with oracle element / key types, 0-3 (4) elements")
     hs = gen(run.tier)
     if only:
         hs = [h for h in hs if only in h.name]
@@ -222,5 +225,18 @@ def check(run, only=None):
 
 
 def replay(run, path):
+    import json as _json
+    _rec = _json.load(open(path))
+    if _rec.get("replay", {}).get("engine") == "e3-serialize":
+        from ..synx import Helper
+        _rp = _rec["replay"]
+        _line = Helper(run).call("serialize", [_rp["request"]])[0]
+        _obs = _json.loads(_line[3:]) if _line.startswith("OK ") else {"panic": _line}
+        if _json.dumps(_obs, sort_keys=True) != _json.dumps(_rp["expected"], sort_keys=True):
+            print(f"VIOLATION property=C13 replay={path}")
+            print(f"  cell={_rec['cell']} class={_rec['class']}: {_json.dumps(_obs)} but the specification gives {_json.dumps(_rp['expected'])}")
+            return 1
+        print(f"replay {path}: behaves as specified on the current tree")
+        return 0
     from ..replay import replay_file
     return replay_file(run, path, gen_all=lambda: gen("thorough"), file=FILE, tag="c13", preamble=PREAMBLE)
